@@ -247,11 +247,36 @@ func CheckGraph(g *Graph, escaped map[string][]byte, inScope func(gno.PkgID) boo
 		hasOwner := !o.Info.OwnerID.IsZero()
 		wantOwner := o.Info.RefCount == 1 && !o.Info.IsEscaped
 		if hasOwner != wantOwner {
-			add("owner-presence", id, "OwnerID set=%v but RefCount=%d IsEscaped=%v", hasOwner, o.Info.RefCount, o.Info.IsEscaped)
+			clause := "owner-missing-on-singly-referenced-object"
+			detail := ""
+			if hasOwner {
+				clause = "owner-set-on-shared-object"
+				if o.Info.IsEscaped {
+					clause = "owner-set-on-escaped-object"
+				}
+				ow := g.Objs[o.Info.OwnerID.String()]
+				holds := false
+				if ow != nil {
+					for _, r := range ow.Refs {
+						if r.ObjectID == o.ID {
+							holds = true
+						}
+					}
+				}
+				detail = fmt.Sprintf("; recorded owner %s exists=%v holds-reference=%v; referrers %v", o.Info.OwnerID, ow != nil, holds, head(referrers[id], 4))
+			}
+			add(clause, id, "OwnerID set=%v but RefCount=%d IsEscaped=%v kind %s%s", hasOwner, o.Info.RefCount, o.Info.IsEscaped, o.Kind, detail)
 		} else if hasOwner {
 			ow := g.Objs[o.Info.OwnerID.String()]
 			if ow == nil {
-				add("owner-missing", id, "owner %s is not persisted", o.Info.OwnerID)
+				clause := "owner-missing"
+				if indeg[id] == 1 && len(referrers[id]) == 1 {
+					if r := g.Objs[referrers[id][0]]; r != nil && r.ID.PkgID == o.ID.PkgID {
+						// the recorded (old) owner has since been deleted: same stale-owner state as below
+						clause = "owner-stale-after-sole-reference-moved"
+					}
+				}
+				add(clause, id, "owner %s is not persisted; referrers %v; kind %s", o.Info.OwnerID, head(referrers[id], 4), o.Kind)
 			} else {
 				found := false
 				for _, r := range ow.Refs {
